@@ -234,13 +234,12 @@ func checkC09(w *World, r *Report) {
 	r.Rule("R09.5", 1, "a Load followed by a Store of the same atomic field runs under a lock or uses compare-and-swap (no lost update)")
 	r.Rule("R09.3s", 4, "Close establishes the closed state of a table in the same critical section in which it takes the table's snapshot (before the cascade runs), so an insertion that overlaps Close is either in the snapshot or sees the reset")
 
-	checkDiscipline(w, r, la, nil)
-
-	checkLockHygiene(w, r, la)
-	checkTypestate(w, r, la)
-	ruleSwap(w, r, "R09.3s", la)
-	ruleAtomicRMW(w, r, "R09.5", la)
-	checkGoStatements(w, r)
+	r.Try(func() { checkDiscipline(w, r, la, nil) })
+	r.Try(func() { checkLockHygiene(w, r, la) })
+	r.Try(func() { checkTypestate(w, r, la) })
+	r.Try(func() { ruleSwap(w, r, "R09.3s", la) })
+	r.Try(func() { ruleAtomicRMW(w, r, "R09.5", la) })
+	r.Try(func() { checkGoStatements(w, r) })
 }
 
 func orNone(s string) string {
